@@ -14,8 +14,9 @@ VARIABLES l,        \* next line of Tr
           hst,      \* handle -> abstract handle state
           fidx,     \* file id -> index in Tr of its Stream event (0 = unknown)
           scn,      \* index of the Reset line of the running scenario
-          nviol     \* violations so far
-vars == <<l, hst, fidx, scn, nviol>>
+          nviol,    \* violations so far
+          nbl       \* reads so far in which the content of a lapped region was judged (LapBlendAsSpecified evaluated, not vacuous)
+vars == <<l, hst, fidx, scn, nviol, nbl>>
 
 Handles == 0..3
 FileIds == 0..63
@@ -27,10 +28,12 @@ Report(rules, e) ==
   IF rules = {} THEN TRUE
   ELSE PrintT("VIOL " \o ToJson([line |-> l, scn |-> Tr[scn].scn, ev |-> e.e, rules |-> rules]))
 
-Init == /\ l = 1 /\ hst = [h \in Handles |-> InitHandle] /\ fidx = [f \in FileIds |-> 0] /\ scn = 1 /\ nviol = 0
+Init == /\ l = 1 /\ hst = [h \in Handles |-> InitHandle] /\ fidx = [f \in FileIds |-> 0] /\ scn = 1 /\ nviol = 0 /\ nbl = 0
 
 Step(rules, e, h2) ==
   /\ Report(rules, e)
+  /\ nbl' = nbl + (IF e.e = "ReadF" /\ BlendJudged(hst[e.h], HF(e.h), e) THEN 1 ELSE 0)
+  /\ (e.e = "End" => PrintT("STAT " \o ToJson([nbl |-> nbl])))
   /\ nviol' = nviol + Cardinality(rules)
   /\ hst' = h2
   /\ l' = l + 1
@@ -43,9 +46,9 @@ Next ==
   /\ l <= Len(Tr)
   /\ LET e == Tr[l] IN
      CASE e.e = "Reset" ->
-            /\ hst' = [h \in Handles |-> InitHandle] /\ fidx' = [f \in FileIds |-> 0] /\ scn' = l /\ l' = l + 1 /\ UNCHANGED nviol
+            /\ hst' = [h \in Handles |-> InitHandle] /\ fidx' = [f \in FileIds |-> 0] /\ scn' = l /\ l' = l + 1 /\ UNCHANGED <<nviol, nbl>>
        [] e.e = "Stream" ->
-            /\ fidx' = [fidx EXCEPT ![e.f] = l] /\ l' = l + 1 /\ UNCHANGED <<hst, scn, nviol>>
+            /\ fidx' = [fidx EXCEPT ![e.f] = l] /\ l' = l + 1 /\ UNCHANGED <<hst, scn, nviol, nbl>>
        [] e.e = "Open" ->
             LET F == FileOf(fidx, e.f) IN
             /\ Step(ChkOpen(hst[e.h], F, e), e, [hst EXCEPT ![e.h] = NxtOpen(@, F, e)]) /\ UNCHANGED <<fidx, scn>>
@@ -73,6 +76,11 @@ Next ==
                                                                             ELSE HalfBs0At(F2, s2, e.cur)) \div 2
                                                                       ELSE 0
                                                           IN IF e.tell = s2.pos /\ s2.lap > new THEN s2.lap ELSE new,
+                                                    \* is the content of that region decided (VFApi.BlendDecided)?  Not when an earlier region of this handle is still pending.
+                                                    !.bl = LET c1 == IF "cur11" \in DOMAIN e THEN e.cur11 ELSE -1
+                                                               n == Min({HalfBs0At(F1, s1, c1), HalfBs0At(F2, s2, e.cur)}) \div 2
+                                                           IN e.ret = 0 /\ s1.open /\ s2.open /\ s2.lap = 0 /\ s2.pos >= 0 /\ s1.sk /\ s2.sk
+                                                              /\ BlendDecided(s1, F1, c1 + 1, s2, F2, e.cur + 1, n, s2.pos, e),
                                                     !.pos = IF e.ret = 0 \/ e.tell = s2.pos THEN @ ELSE -1]])
             /\ UNCHANGED <<fidx, scn>>
        [] e.e = "Tell" ->
@@ -83,18 +91,18 @@ Next ==
             /\ Step(ChkClear(hst[e.h], e), e, [hst EXCEPT ![e.h] = NxtClear(@, e)]) /\ UNCHANGED <<fidx, scn>>
        [] e.e = "Fault" ->
             \* kind 3 (one byte per read) is ordinary short-read behaviour: the full promise still applies
-            /\ hst' = [hst EXCEPT ![e.h] = [@ EXCEPT !.faulted = (e.kind # 3), !.fk = e.kind]] /\ l' = l + 1 /\ UNCHANGED <<fidx, scn, nviol>>
+            /\ hst' = [hst EXCEPT ![e.h] = [@ EXCEPT !.faulted = (e.kind # 3), !.fk = e.kind]] /\ l' = l + 1 /\ UNCHANGED <<fidx, scn, nviol, nbl>>
        [] e.e = "FaultOff" ->
             \* position is unknown after faults; the next successful seek re-establishes the full promise
             /\ hst' = [hst EXCEPT ![e.h] = [@ EXCEPT !.faulted = FALSE, !.pos = IF hst[e.h].faulted /\ e.fired > 0 THEN -1 ELSE @, !.lap = IF hst[e.h].faulted /\ e.fired > 0 THEN 0 ELSE @]]
-            /\ l' = l + 1 /\ UNCHANGED <<fidx, scn, nviol>>
+            /\ l' = l + 1 /\ UNCHANGED <<fidx, scn, nviol, nbl>>
        [] e.e = "End" ->
             /\ Step((IF e.openleft = 0 /\ e.live # 0 THEN {"ClearReleasesEverything"} ELSE {}), e, hst) /\ UNCHANGED <<fidx, scn>>
        [] e.e = "Crash" -> /\ Step({"NoCrash"}, e, hst) /\ UNCHANGED <<fidx, scn>>
        [] e.e = "Hang"  -> /\ Step({"CallsTerminate"}, e, hst) /\ UNCHANGED <<fidx, scn>>
        [] e.e = "Exit"  -> /\ Step({"LibraryNeverExits"}, e, hst) /\ UNCHANGED <<fidx, scn>>
        [] e.e \in {"CbRead","CbSeek","CbTell","CbClose","LinkFail","Note","Pages"} ->
-            /\ l' = l + 1 /\ UNCHANGED <<hst, fidx, scn, nviol>>
+            /\ l' = l + 1 /\ UNCHANGED <<hst, fidx, scn, nviol, nbl>>
        [] OTHER -> /\ Step({"UnknownEvent"}, e, hst) /\ UNCHANGED <<fidx, scn>>
 
 Spec == Init /\ [][Next]_vars
